@@ -20,8 +20,14 @@ TRUSTED = [
     "objects are modelled as opaque identities allocated fresh; sharing one characteristic object between "
     "services, adding the same service twice, or adding characteristics to a service after add_service is "
     "documented misuse and out of scope; custom IIDManager subclasses are out of scope",
-    "histories are construction histories observed at the end (no GET /accessories between a removal and the "
-    "final observation); removal = IIDManager.remove_obj/remove_iid and bridge.accessories.pop",
+    "histories interleave construction with observations (polls: GET /accessories, one multi-id GET /characteristics "
+    "re-polling every earlier path, a few PUTs); removal = IIDManager.remove_obj/remove_iid and bridge.accessories.pop, "
+    "re-adding = IIDManager.assign of a removed object (the object stays in its service; detaching a Service object from "
+    "Accessory.services and adding it again reduces to the same manager operations and is not a separate model op); the "
+    "model mirrors the REPAIRED IIDManager (design/fixes/C17-stale-iid-in-cache.patch)",
+    "event delivery is observed on real HAPServerProtocol objects over fake plaintext transports on a virtual-time loop "
+    "(harness/vloop.py): the EVENT bodies written after the 0.5 s coalescing window are decoded; identities reached by "
+    "reads / writes are recorded by class-level wrappers around Characteristic.get_value / client_update_value",
     "generated table lean/HapModel/Gen/Services.lean (extract/services.py reads pyhap/resources/*.json)",
     "harness generators, object numbering, and the in-process rig harness/ref/dbrig.py (fake verified session)",
 ]
@@ -51,6 +57,8 @@ class Run:
         self.prev: Dict[int, Dict[int, int]] = {}  # id(manager) -> id(obj) -> iid at the last snapshot
         self.auto_aids: List[int] = []
         self.model_subs: List[dict] = []
+        self.model_ops: List[dict] = []  # the ops as the model gets them (polls with their concrete ids)
+        self.polled: List[tuple] = []  # every path polled so far
         self.snapshot()
 
     def fail(self, sig: str, desc: str):
@@ -84,6 +92,7 @@ class Run:
 
     def apply(self, op: dict) -> dict:
         self.h["ops"].append(op)
+        self.model_ops.append(op)
         try:
             r = self._apply(op)
         except Exception as ex:  # noqa: BLE001 - an exception out of pyhap is the op's outcome
@@ -97,6 +106,8 @@ class Run:
     def _apply(self, op: dict) -> dict:
         rig = self.rig
         k = op["op"]
+        if k == "poll":
+            return self.poll(op)
         if k == "addAccessory":
             if not rig.is_bridge:
                 return {"err": "badTarget"}
@@ -159,14 +170,9 @@ class Run:
                 raise
             return {"results": self.results, "accessories": None, "observation_raised": type(ex).__name__ + ": " + str(ex)[:160]}
 
-    def _observe(self, rng=None) -> dict:
+    def listing_of(self, doc) -> list:
+        """aid / iid / type skeleton of a GET /accessories document; flags duplicate ids."""
         rig = self.rig
-        from pyhap.characteristic import Characteristic
-
-        status, doc = rig.http("GET", "/accessories")
-        if status != 200 or not isinstance(doc, dict):
-            self.fail("C17:get-accessories-failed", f"GET /accessories answered {status}")
-            return {"results": self.results, "accessories": None}
         skeleton = []
         seen_aids = []
         for a in doc["accessories"]:
@@ -190,22 +196,140 @@ class Run:
             skeleton.append({"aid": aid, "services": svcs})
         if rig.is_bridge and any(a == seen_aids[0] for a in seen_aids[1:]):
             self.fail("C17:duplicate-aid", "a bridged accessory carries the bridge's own aid")
+        return skeleton
+
+    def live_objects(self) -> Dict[int, set]:
+        """aid key -> ids of the characteristic objects in that accessory's structure."""
+        return {key: {id(c) for s in acc.services for c in s.characteristics} for key, acc in self.rig.accessories()}
+
+    def poll(self, op: dict) -> dict:
+        """An observation in the middle of a history: GET /accessories, then ONE GET /characteristics
+        naming every listed characteristic pair plus every path polled earlier (identical ids are polled
+        again after structural changes), then a write to a few of the listed pairs.  Judged: a listed
+        pair is readable, the read reaches a characteristic of the accessory now bridged under that aid,
+        of the listed type, and the same object a write reaches."""
+        rig = self.rig
+        for key, acc in rig.accessories():
+            rig.number_accessory(acc)
+        status, doc = rig.http("GET", "/accessories")
+        if status != 200 or not isinstance(doc, dict):
+            self.fail("C17:get-accessories-failed", f"GET /accessories answered {status}")
+            self.model_ops[-1] = {"op": "poll", "ids": []}
+            return {"poll": None}
+        skeleton = self.listing_of(doc)
+        listed = {}
+        for a in doc["accessories"]:
+            for s in a["services"]:
+                for c in s["characteristics"]:
+                    if a["aid"] is not None and c["iid"] is not None:
+                        listed.setdefault((a["aid"], c["iid"]), c["type"])
+        ids = list(listed) + [p for p in self.polled if p not in listed]
+        ids = ids[:160]
+        self.polled = list(dict.fromkeys(self.polled + ids))[-240:]
+        self.model_ops[-1] = {"op": "poll", "ids": [list(p) for p in ids]}
+        hits = dbrig.TRACE
+        dbrig.TRACE_ON[0] = True
+        try:
+            del hits[:]
+            st, body = rig.http("GET", "/characteristics?id=" + ",".join(f"{a}.{i}" for a, i in ids))
+            reads = [c for k2, c in hits if k2 == "r"]
+            entries = body.get("characteristics") if isinstance(body, dict) else None
+            if st not in (200, 207) or not isinstance(entries, list):
+                self.fail("C17:multi-read-failed", f"GET /characteristics for {ids[:8]}… answered {st}")
+                return {"poll": {"accessories": skeleton, "code": st, "entries": None}}
+            with_value = [e for e in entries if "value" in e]
+            reached = {}
+            if len(with_value) == len(reads):
+                reached = {id(e): c for e, c in zip(with_value, reads)}
+            else:
+                self.fail("C17:multi-read-inconsistent", f"GET /characteristics returned {len(with_value)} values but read {len(reads)} characteristics")
+            view = [
+                {k2: v for k2, v in (("aid", e.get("aid")), ("iid", e.get("iid")), ("status", e.get("status")),
+                                    ("obj", rig.num(reached[id(e)]) if id(e) in reached else None)) if v is not None}
+                for e in entries
+            ]
+            live = self.live_objects()
+            r_of = {}
+            pos = 0
+            for aid, iid in ids:
+                e = entries[pos] if pos < len(entries) and (entries[pos].get("aid"), entries[pos].get("iid")) == (aid, iid) else None
+                if e is not None:
+                    pos += 1
+                if (aid, iid) not in listed:
+                    continue
+                r_obj = reached.get(id(e)) if e is not None else None
+                if r_obj is None:
+                    self.fail(
+                        "C17:listed-pair-not-readable",
+                        f"({aid},{iid}) is listed by GET /accessories but a read of it "
+                        + (f"fails (status {e.get('status')})" if e is not None else "produces no entry")
+                        + f"; the accessory's manager holds iids {sorted(i for i in (rig.accessory(aid).iid_manager.objs if rig.accessory(aid) is not None else {}))[-4:]}…",
+                    )
+                    continue
+                r_of[(aid, iid)] = r_obj
+                if id(r_obj) not in live.get(aid, set()):
+                    self.fail(
+                        "C17:read-reaches-foreign-object",
+                        f"a read of the listed pair ({aid},{iid}) reaches object #{rig.num(r_obj)}, which is no characteristic of "
+                        f"the accessory now registered under aid {aid}",
+                    )
+                elif hap_type(r_obj.type_id) != listed[(aid, iid)]:
+                    self.fail(
+                        "C17:pair-denotes-other-characteristic",
+                        f"({aid},{iid}) is listed with type {listed[(aid, iid)]} but a read reaches a characteristic of type {hap_type(r_obj.type_id)}",
+                    )
+            keys = list(r_of)
+            for k in op.get("pick", []):
+                if not keys:
+                    break
+                aid, iid = keys[k % len(keys)]
+                r_obj = r_of[(aid, iid)]
+                value = 0 if r_obj.value is None else r_obj.value
+                del hits[:]
+                q = {"characteristics": [{"aid": aid, "iid": iid, "value": value}]}
+                st2, _ = rig.http("PUT", "/characteristics", json.dumps(q).encode())
+                writes = [c for k2, c in hits if k2 == "w"]
+                w_obj = writes[0] if len(writes) == 1 else None
+                if w_obj is not r_obj:
+                    self.fail(
+                        "C17:read-write-resolve-differently",
+                        f"({aid},{iid}): a read reaches object #{rig.num(r_obj)}, a write reaches "
+                        f"{'#%s' % rig.num(w_obj) if w_obj is not None else 'nothing'} (PUT answered {st2})",
+                    )
+        finally:
+            dbrig.TRACE_ON[0] = False
+        # warm the caches again (the writes above dropped some of them)
+        rig.http("GET", "/accessories")
+        return {"poll": {"accessories": skeleton, "code": st, "entries": view}}
+
+    def _observe(self, rng=None) -> dict:
+        rig = self.rig
+        dbrig.TRACE_ON[0] = True
+        try:
+            return self._observe_traced(rng)
+        finally:
+            dbrig.TRACE_ON[0] = False
+
+    def _observe_traced(self, rng=None) -> dict:
+        rig = self.rig
+
+        status, doc = rig.http("GET", "/accessories")
+        if status != 200 or not isinstance(doc, dict):
+            self.fail("C17:get-accessories-failed", f"GET /accessories answered {status}")
+            return {"results": self.results, "accessories": None}
+        skeleton = self.listing_of(doc)
 
         # identity probes: which object does a read / a write reach
-        hits: List[Any] = []
+        hits = dbrig.TRACE  # ("r"|"w", object) recorded by the class-level wrappers (no callbacks installed)
+        for key, acc in rig.accessories():
+            # anything live that the construction bookkeeping does not know (e.g. registered by an add
+            # that was reported as rejected) gets a number now: an observation, not a crash
+            rig.number_accessory(acc)
         chars_live = []
         for key, acc in rig.accessories():
             for s in acc.services:
                 for c in s.characteristics:
                     chars_live.append((key, acc, c))
-        # anything live that the construction bookkeeping does not know (e.g. registered by an add that
-        # was reported as rejected) gets a number now: an unexpected object is an observation, not a crash
-        for key, acc in rig.accessories():
-            rig.number_accessory(acc)
-        for _, _, c in chars_live:
-            # (always-null characteristics store None, which is not a readable value: report 0)
-            c.getter_callback = (lambda c=c: (hits.append(("r", c)), 0 if c.value is None else c.value)[1])
-            c.setter_callback = (lambda v, c=c: hits.append(("w", c)))
         subs_obs = self.subscription_scenario(doc, rng)
         resolve = {}
         pairs = []
@@ -230,9 +354,7 @@ class Run:
                     "C17:pair-denotes-other-characteristic",
                     f"({aid},{iid}) is listed with type {typ} but a read reaches a characteristic of type {hap_type(r_obj.type_id)}",
                 )
-            value = r_obj.value
-            if value is None:
-                value = 0
+            value = 0 if r_obj.value is None else r_obj.value
             del hits[:]
             q = {"characteristics": [{"aid": aid, "iid": iid, "value": value}]}
             st, body = rig.http("PUT", "/characteristics", json.dumps(q).encode(), addr)
@@ -303,35 +425,51 @@ class Run:
 
     def gen_subs(self, rng, pairs: List[tuple]) -> List[dict]:
         """Subscription requests naming several pairs at once, single-pair (un)subscribes by other
-        connections, and value changes on every pair."""
+        connections, value changes on every pair, and several value changes of different
+        characteristics (of one accessory and of others) inside one coalescing window."""
         by_iid: Dict[int, List[tuple]] = {}
+        by_aid: Dict[int, List[tuple]] = {}
         for p in pairs:
             by_iid.setdefault(p[1], []).append(p)
-        shared = [v for v in by_iid.values() if len(v) >= 2]
+            by_aid.setdefault(p[0], []).append(p)
         group: List[tuple] = []
+        rich = [v for v in by_aid.values() if len(v) >= 2]
+        if rich:
+            group += rng.sample(rng.choice(rich), 2)  # two characteristics of one accessory
+        shared = [v for v in by_iid.values() if len(v) >= 2]
         if shared:
-            group += rng.choice(shared)[:2]  # the same iid in two accessories
+            for p in rng.choice(shared)[:2]:  # the same iid in two accessories
+                if p not in group:
+                    group.append(p)
         for p in rng.sample(pairs, min(len(pairs), 3)):
             if p not in group:
                 group.append(p)
-        group = group[:4]
+        group = group[:5]
         if len(group) < 2:
             return []
         sub = lambda cl, items: {"client": cl, "sub": [[a, i, on] for (a, i), on in items]}  # noqa: E731
         every = [{"notify": list(p)} for p in group]
-        steps = [sub(0, [(p, True) for p in group]), sub(1, [(group[0], True)])] + every
+        steps = [sub(0, [(p, True) for p in group]), {"window": [list(p) for p in group[:3]]}, sub(1, [(group[0], True)])] + every
+        steps += [{"window": [list(group[1]), list(group[0]), list(group[1])]}]
         steps += [sub(1, [(group[0], False)]), sub(0, [(group[1], False)])] + every
         steps += [sub(2, [(p, True) for p in group[1:]]), sub(2, [(group[-1], False)])] + every
-        for _ in range(rng.randrange(2, 7)):
+        steps += [{"window": [list(p) for p in group]}]
+        for _ in range(rng.randrange(2, 6)):
             k = rng.choice([1, 1, 2, 3])
             steps.append(sub(rng.randrange(3), [(rng.choice(group), rng.random() < 0.6) for _ in range(k)]))
-            steps += [{"notify": list(rng.choice(group))} for _ in range(rng.choice([1, 2]))]
+            if rng.random() < 0.5:
+                steps.append({"window": [list(rng.choice(group)) for _ in range(rng.choice([2, 3, 4]))]})
+            else:
+                steps += [{"notify": list(rng.choice(group))} for _ in range(rng.choice([1, 2]))]
         steps += every
         return steps
 
     def subscription_scenario(self, doc, rng) -> List[dict]:
-        """Oracle: a connection receives the event of a value change of pair p iff it itself
-        subscribed to p and has not unsubscribed from p since; the event carries p."""
+        """Oracle on what is DELIVERED: real HAPServerProtocol connections on fake transports; after
+        the coalescing window has elapsed the EVENT bodies written to each transport are decoded.  A
+        connection receives an entry for pair p iff it itself subscribed to p and has not unsubscribed
+        since and p's characteristic changed in that window; the entry carries p and the value of the
+        characteristic that changed -- also when several characteristics change inside one window."""
         rig = self.rig
         pairs = [(a["aid"], c["iid"]) for a in doc["accessories"] for s in a["services"] for c in s["characteristics"]
                  if a["aid"] is not None and c["iid"] is not None]
@@ -346,9 +484,13 @@ class Run:
         out: List[dict] = []
         self.model_subs = []
         done: List[str] = []
+        if not steps:
+            return out
+        for peer in self.SUB_CLIENTS:
+            rig.connect(peer)
         try:
             for st in steps:
-                if "notify" not in st:
+                if "sub" in st:
                     addr = self.SUB_CLIENTS[st["client"]]
                     q = {"characteristics": [{"aid": a, "iid": i, "ev": on} for a, i, on in st["sub"]]}
                     rig.http("PUT", "/characteristics", json.dumps(q).encode(), addr)
@@ -357,29 +499,45 @@ class Run:
                     self.model_subs.append(st)
                     done.append(f"client {st['client']}: " + ", ".join(("+" if on else "-") + f"({a},{i})" for a, i, on in st["sub"]))
                     continue
-                aid, iid = st["notify"]
-                acc = rig.accessory(aid)
-                obj = acc.iid_manager.get_obj(iid) if acc is not None else None
-                if obj is None or not hasattr(obj, "notify"):
-                    continue  # the pair is not listed in this (minimised) history
-                self.model_subs.append({"notify": rig.num(obj)})
-                del rig.events[:]
-                del rig.pushed[:]
-                obj.notify()
-                ev = rig.events[-1] if rig.events else None
-                got = sorted(self.SUB_CLIENTS.index(cl) for _, cl in rig.pushed if cl in self.SUB_CLIENTS)
-                want = sorted(c for c, ps in own.items() if (aid, iid) in ps)
-                carried = {(d["aid"], d["iid"]) for d, _ in rig.pushed}
-                out.append({"event": [ev["aid"], ev["iid"]] if ev else None, "clients": got})
-                if got != want or (carried and carried != {(aid, iid)}):
-                    self.fail(
-                        "C17:subscription-crosstalk",
-                        f"after [{'; '.join(done[-6:])}] a value change of ({aid},{iid}) is delivered to connections {got} "
-                        f"carrying {sorted(carried, key=str)}; subscribed to that pair: {want}",
-                    )
+                changed = [tuple(st["notify"])] if "notify" in st else [tuple(p) for p in st["window"]]
+                objs = []
+                for aid, iid in changed:
+                    acc = rig.accessory(aid)
+                    obj = acc.iid_manager.get_obj(iid) if acc is not None else None
+                    if obj is not None and hasattr(obj, "notify"):
+                        objs.append(((aid, iid), obj))
+                if not objs:
+                    continue  # the pairs are not listed in this (minimised) history
+                nums = [rig.num(o) for _, o in objs]
+                self.model_subs.append({"notify": nums[0]} if "notify" in st else {"window": nums})
+                for peer in self.SUB_CLIENTS:
+                    rig.delivered(peer)  # nothing may be pending, start from a clean transport
+                for _, obj in objs:
+                    obj.notify()
+                rig.loop.advance(0.75)  # past the 0.5 s coalescing window
+                want_pairs = list(dict.fromkeys(p for p, _ in objs))
+                value_of = {p: o.value for p, o in objs}
+                rows = []
+                for n, peer in enumerate(self.SUB_CLIENTS):
+                    got = rig.delivered(peer)
+                    want = [p for p in want_pairs if p in own.get(n, set())]
+                    got_pairs = [(e.get("aid"), e.get("iid")) for e in got]
+                    if got_pairs:
+                        rows.append([n, [list(p) for p in got_pairs]])
+                    bad_value = [e for e in got if (e.get("aid"), e.get("iid")) in value_of
+                                 and e.get("value") != value_of[(e.get("aid"), e.get("iid"))]]
+                    if sorted(got_pairs, key=str) != sorted(want, key=str) or bad_value:
+                        self.fail(
+                            "C17:delivered-event-differs",
+                            f"after [{'; '.join(done[-5:])}] the characteristics {want_pairs} change within one window; connection {n} "
+                            f"receives {[(e.get('aid'), e.get('iid'), e.get('value')) for e in got]}, it is subscribed to "
+                            f"{want} of them (values {[value_of[p] for p in want]})",
+                        )
+                out.append({"deliveries": rows})
         finally:
-            for addr in self.SUB_CLIENTS:
-                rig.driver.connection_lost(addr)
+            for peer in self.SUB_CLIENTS:
+                if peer in rig.conns:
+                    rig.disconnect(peer)
         return out
 
     # ------------------------------------------------------------------ multi-id reads
@@ -653,6 +811,30 @@ def boundary_histories(pool) -> List[dict]:
         }
     )
     hs.append({"bridge": False, "mainAid": None, "main": [], "ops": [{"op": "addService", "aid": 1, "spec": raw([["Name", "On", "Name"]], False)}]})
+    poll = lambda *pick: {"op": "poll", "pick": list(pick) or [0, 3, 7]}  # noqa: E731
+    # reads interleaved with replacing a bridged accessory under the same aid (explicit, and the
+    # automatic search handing the lowest free aid out again); identical paths are polled again
+    hs.append(
+        {
+            "bridge": True,
+            "main": [],
+            "ops": [auto([lb]), auto([sw]), poll(), {"op": "removeAccessory", "aid": 2}, expl(2, [sw, lb]), poll(1, 9, 12),
+                    {"op": "removeAccessory", "aid": 3}, auto([lb, sw]), poll(2, 8), {"op": "removeAccessory", "aid": 2}, poll()],
+        }
+    )
+    # reads interleaved with removing an object from the manager and assigning it again (new iid),
+    # for a characteristic and for a whole service
+    hs.append(
+        {
+            "bridge": True,
+            "main": [lb],
+            "ops": [poll(), {"op": "removeObj", "aid": 1, "obj": 11}, poll(), {"op": "assign", "aid": 1, "obj": 11}, poll(),
+                    {"op": "removeIid", "aid": 1, "iid": 12}, {"op": "assign", "aid": 1, "obj": 11}, poll(),
+                    {"op": "removeObj", "aid": 1, "obj": 9}, {"op": "removeObj", "aid": 1, "obj": 10}, {"op": "removeObj", "aid": 1, "obj": 11},
+                    {"op": "assign", "aid": 1, "obj": 9}, {"op": "assign", "aid": 1, "obj": 10}, {"op": "assign", "aid": 1, "obj": 11}, poll()],
+        }
+    )
+    hs.append({"bridge": False, "mainAid": None, "main": [lb], "ops": [poll(), {"op": "removeIid", "aid": 1, "iid": 9}, {"op": "assign", "aid": 1, "obj": 8}, poll()]})
     for h in hs:
         h.setdefault("mainAid", 1)
     return hs
@@ -674,8 +856,16 @@ def random_history(ctx: Ctx, pool, big: bool = False):
 
     n_ops = rng.randrange(8, 16) if big else rng.randrange(2, 13)
     removed: List[tuple] = []  # (aid, obj number) removed from a manager
+    polls = rng.random() < 0.6  # this history interleaves reads with the construction
+    pending: List[dict] = []  # ops forced next (replace under the same aid, poll again)
     for _ in range(n_ops):
         keys = [k for k, _ in rig.accessories()]
+        if pending:
+            r = run.apply(pending.pop(0))
+            continue
+        if polls and rng.random() < 0.22:
+            run.apply({"op": "poll", "pick": [rng.randrange(1000) for _ in range(rng.choice([0, 2, 4]))]})
+            continue
         x = rng.random()
         if bridge and (x < (0.55 if big else 0.25)) and len(keys) < (12 if big else 7):
             y = rng.random()
@@ -691,6 +881,11 @@ def random_history(ctx: Ctx, pool, big: bool = False):
                 op["catBridge"] = True
         elif bridge and x < 0.33 and len(keys) > 1:
             op = {"op": "removeAccessory", "aid": rng.choice(keys[1:] + [rng.randrange(2, 12)])}
+            if polls and op["aid"] in keys and rng.random() < 0.6:
+                # replace it by a new accessory under the same aid, then poll the same paths again
+                pending = [{"op": "addAccessory", "aid": rng.choice([op["aid"], None]),
+                            "specs": [any_spec() for _ in range(rng.choice([1, 1, 2]))]},
+                           {"op": "poll", "pick": [rng.randrange(1000) for _ in range(2)]}]
         elif x < 0.5:
             op = {"op": "addService", "aid": rng.choice(keys), "spec": any_spec()}
         else:
@@ -716,8 +911,9 @@ def random_history(ctx: Ctx, pool, big: bool = False):
     return run
 
 
-def line_of(h: dict, model_subs=None) -> dict:
-    return {"layer": "db", "op": "c17", "bridge": h["bridge"], "mainAid": h.get("mainAid", 1), "main": h["main"], "ops": h["ops"],
+def line_of(h: dict, model_subs=None, model_ops=None) -> dict:
+    return {"layer": "db", "op": "c17", "bridge": h["bridge"], "mainAid": h.get("mainAid", 1), "main": h["main"],
+            "ops": model_ops if model_ops is not None else h["ops"],
             "probes": h.get("probes") or [], "subs": model_subs or []}
 
 
@@ -803,7 +999,7 @@ def run(ctx: Ctx):
             r.rig.close()
         runs.append(r)
         obs.append(o)
-    lines = [line_of(r.h, r.model_subs) for r in runs]
+    lines = [line_of(r.h, r.model_subs, r.model_ops) for r in runs]
     model = run_model_parallel("C17", lines)
     for r, o, m in zip(runs, obs, model):
         judge(ctx, r)
@@ -811,6 +1007,9 @@ def run(ctx: Ctx):
         st.case(r.h, nontrivial(r.h, r.results))
         for op, res in zip(r.h["ops"], r.results):
             st.hit("op", op["op"] + ("-auto" if op["op"] == "addAccessory" and op["aid"] is None else ""))
+            if op["op"] == "poll":
+                st.hit("outcome", "poll-ids", len(((res.get("poll") or {}).get("entries")) or []))
+                continue
             st.hit("outcome", op["op"] + ":" + ("err-" + res["err"] if "err" in res else "ok"))
         st.hit("outcome", "listed-pairs", sum(1 for e in o.get("resolve", []) if "read" in e))
         if "fatal" in m:
